@@ -103,7 +103,7 @@ def ledger(wd, harness_tasks=()):
         "tasks": sorted(tasks),
         "connections": len(server.connections),
         "srvfree": server.available_connections.value,
-        "ufree": [server.user_manager.available_connections[u].value for u in wd.users],
+        "ufree": [server.user_manager.available_connections[u].value for u in wd.users] if hasattr(server.user_manager, "available_connections") else [],
         "pool": pool,
         "dispatcher_exceptions": wd.log.exceptions,
         "loop_errors": [str(c.get("message")) for c in wd.loop.loop_errors if "exception()" not in str(c.get("message", "")) and "Task exception was never retrieved" in str(c.get("message", ""))],
